@@ -151,3 +151,33 @@ Definition derive_line (l : list Z) : list (list Z) :=
   | 1 :: r => [storage_case r]
   | _ => [[3]]
   end%Z.
+
+(* ------------------------------------------------------------------ dispatch domain (C11) *)
+From SV Require Export Checkers.DispatchChk.
+
+Definition dispatch_model (h : list Z) : list (list Z) := model_graph (decode_graph h).
+
+Definition tag_is (k : Z) (o : list Z) : bool := match o with t :: _ => Z.eqb t k | [] => false end.
+
+(* verdict on an implementation transcript:
+   [ tree_eq; decl_eq; probe_eq; nopanic; nlogs; nbad; first_bad_code; counter_violations; panics;
+     probes_inconsistent ]
+   the model's outputs with tags 1 / 2 / 6 must equal the implementation's;
+   every log (tag 4) is checked with [log_ok] against the model's systems *)
+Definition dispatch_verdict (h : list Z) (t : list (list Z)) : list Z :=
+  let xs := decode_graph h in
+  let m := model_graph xs in
+  let sel k l := filter (tag_is k) l in
+  let systems := d_systems 0 (dops_of xs) in
+  let logs := sel 4%Z t in
+  let codes := map (fun l => match l with _ :: _ :: _ :: _ :: ev => log_ok systems ev | _ => 1%Z end) logs in
+  let bad := filter (fun c => negb (Z.eqb c 0)) codes in
+  let summ := match sel 5%Z t with [_ :: _ :: v :: p :: _] => (v, p) | [] => (0%Z, 0%Z) | _ => (1%Z, 1%Z) end in
+  [ enc_bool (zlists_eqb (sel 1%Z m) (sel 1%Z t));
+    enc_bool (zlists_eqb (sel 2%Z m) (sel 2%Z t));
+    enc_bool (zlists_eqb (sel 6%Z m) (sel 6%Z t));
+    enc_bool (zlists_eqb (sel 9%Z m) (sel 9%Z t));
+    Z.of_nat (length logs); Z.of_nat (length bad);
+    match bad with c :: _ => c | [] => 0%Z end;
+    fst summ; snd summ;
+    Z.of_nat (length (filter (fun o => negb (probe_consistent o)) (sel 6%Z t))) ].
